@@ -236,7 +236,8 @@ func (s *indexKVStore) PrepareFlush() {
 	s.lock.Lock()
 	defer s.lock.Unlock()
 
-	if s.immutable == nil {
+	// an empty immutable store is left over by a flush round which had nothing to flush
+	if s.immutable == nil || s.immutable.IsEmpty() {
 		s.immutable = s.mutable
 		s.mutable = imap.NewIntMap[map[string]uint32]()
 	}
